@@ -6,6 +6,7 @@ import json, os
 VERIF = os.path.dirname(os.path.dirname(os.path.abspath(__file__)))
 A_ATOMIC = "janet_atomic_inc/dec/load (capi.c, one GCC __atomic builtin each) are given their sequential meaning (harness/ev_atomic.h); no concurrency"
 units = []
+FP_NOISE = "cfun_.*|janet_cfun_.*|janet_chanat_.*|janet_stream_(mark|marshal|tostring)|mutexgc|rwlockgc|ev_callback_read|ev_callback_write"
 
 
 def U(**kw):
@@ -42,9 +43,10 @@ U(id="ev.loop_done", props=["C20"], **{"class": "full-domain"},
 
 # ---------------------------------------------------------------- listener discipline / pairing (plain mode, loop-free)
 ASYNC = dict(harness=["ev_async.c"], mode="plain", nanbox=False, link=["wrap.c"],
-             # the two real stream state machines are function-pointer candidates of fiber->ev_callback(); the harness installs its own
-             # recording callbacks, so their bodies are unreachable - removed to keep symex from walking into them
-             remove_bodies="ev_callback_read|ev_callback_write",
+             # CBMC's function-pointer removal makes every address-taken two-parameter function of ev.c a candidate of
+             # fiber->ev_callback(); the harness installs its own recording callbacks, so these bodies are unreachable -
+             # removed to keep symex from walking into them under symbolic guards
+             remove_bodies=FP_NOISE,
              replace_calls=["janet_gcroot:gcroot_stub", "janet_gcunroot:gcunroot_stub", "free:free_stub", "close:close_stub"],
              checks=["bounds-check", "pointer-check", "signed-overflow-check"],
              # the TU is all of ev.c; count only obligations of the functions under proof, the harness and its stubs
@@ -84,7 +86,7 @@ U(id="ev.stream.gc", props=["C20"], **{"class": "full-domain"},
   **ASYNC)
 U(id="ev.stream.close", props=["C16", "C20"], **{"class": "full-domain"},
   clause="janet_stream_close wakes the pending reader and the pending writer exactly once each (CLOSE event, before the descriptor is closed), leaves no registration behind, releases one pending-work count per woken fiber and closes the descriptor exactly once",
-  entry="h_stream_close", functions=["janet_stream_close", "janet_stream_close_impl", "janet_async_end"],
+  entry="h_stream_close", functions=["janet_stream_close", "janet_stream_close_impl", "janet_async_end"], cbmc=["--sat-solver", "cadical"],
   assumes=A_ASYNC + ["the callbacks behave on CLOSE as every stream callback of ev.c/net.c does: cancel the fiber, then janet_async_end (harness closing_cb)", "POSIX: JANET_FIBER_EV_FLAG_IN_FLIGHT is never set"],
   mutants=[{"name": "writer-not-woken", "file": "ev.c", "find": "    if (wf && wf->ev_callback) {\n        wf->ev_callback(wf, JANET_ASYNC_EVENT_CLOSE);", "replace": "    if (wf && wf->ev_callback) {\n", "expect": "C16 close"},
            {"name": "close-before-notify", "file": "ev.c", "find": "    JanetFiber *wf = stream->write_fiber;\n    if (rf && rf->ev_callback) {", "replace": "    JanetFiber *wf = stream->write_fiber;\n    janet_stream_close_impl(stream);\n    if (rf && rf->ev_callback) {", "expect": "C16 close: pending fibers are notified before"}],
